@@ -18,13 +18,18 @@ from rustprops import reachable, fields_of, norm, st, pl
 LANG_PROP = {"python": "C13", "cxx": "C14", "cxx_ndebug": "C14", "java": "C19"}
 
 
-def subvalue(a, b):
+def subvalue(a, b, spec_ok=False, depth=0):
     """every key of the reference value b is present in a with the same value
-    (implementations may report extra keys, e.g. constrained fields)"""
+    (implementations may report extra keys, e.g. constrained fields).  spec_ok: the
+    implementation specializes NESTED structs on its own (Python, Java): a nested object
+    whose payload was parsed into a child's fields is not comparable with the reference's
+    parent-level value"""
     if isinstance(b, dict) and isinstance(a, dict):
-        return all(k in a and subvalue(a[k], v) for k, v in b.items())
+        if spec_ok and depth > 0 and "payload" in b and "payload" not in a:
+            return True
+        return all(k in a and subvalue(a[k], v, spec_ok, depth + 1) for k, v in b.items())
     if isinstance(b, list) and isinstance(a, list):
-        return len(a) == len(b) and all(subvalue(x, y) for x, y in zip(a, b))
+        return len(a) == len(b) and all(subvalue(x, y, spec_ok, depth + 1) for x, y in zip(a, b))
     return norm(a) == norm(b)
 
 
@@ -156,6 +161,19 @@ def feat_count_or_size(env, ty, case):
     return any(f["kind"] in ("count_field", "size_field") for _, f in fields_of(env, ty))
 
 
+def feat_padded_array(env, ty, case):
+    return any(f["kind"] == "padding_field" for _, f in fields_of(env, ty))
+
+
+def feat_typedef_of_derived_struct(env, ty, case):
+    for t in reachable(env, ty):
+        for f in env.decls[t].get("fields", []):
+            x = env.decls.get(f.get("type_id") or "")
+            if f["kind"] in ("typedef_field", "array_field") and x and x["kind"] == "struct_declaration" and x.get("parent_id"):
+                return True
+    return False
+
+
 def feat_any(env, ty, case):
     return True
 
@@ -208,7 +226,7 @@ def classify_decode(lang, ty, r, ref):
             return None, None
         if not ref_accepts:
             return "accepts-invalid:" + (pl(ref)[0] if rs == "err" else "TrailingBytesError"), p.get("value")
-        if not subvalue(p.get("value"), json.loads(pl(ref)[0])):
+        if not subvalue(p.get("value"), json.loads(pl(ref)[0]), spec_ok=lang in ("python", "java")):
             return "value-differs", {"impl": p.get("value"), "ref": json.loads(pl(ref)[0])}
         return None, None
     if s == "err":
